@@ -23,6 +23,9 @@ CHECKS = {
  "C06": dict(category="exploration", technique="Hypothesis-generated transcripts with the CDS placed as a contiguous run of the transcript (biased to ends/exon boundaries), judged by position lists T and C=T[i:j]",
    text="Every transcript, CDS and chromosome position (span+-1) through every conversion and its inverse, both paths chromosome->CDS, random intervals in each system, amino-acid index, non-coding refusals, 5'UTR/CDS/3'UTR partition (positions, order, sequence concatenation), introns and span.",
    note="An empty UTR may be any zero-length location but never an exception.", ref="DESIGN.md §5 C06"),
+ "C10": dict(category="exploration", technique="Hypothesis rule-based state machines (one per object family) generating call histories, with cache-eviction and unrelated-object disturbances; each answer compared, by type and value, with a freshly built twin asked only that question; operand snapshots as invariant",
+   text="Nine families (location/parent, sequence with recorded location, CDS, transcript, feature, gene, feature collection, annotation collection, variant collection) with 20-60 registered questions each (accessors, cached methods, conversions, exports, set operations with a second operand, queries, pickling, variant incorporation), repetitions, focused rules for questions that share a cache and differ in arguments, eviction of the global Parent cache (>1000 parents), interleaving with an unrelated object; after every step the dictionary form, hash, identifier, qualifiers and children of every operand must be unchanged.",
+   note="Single-threaded histories only. The shrunk history is stored as a JSON spec and replayed without Hypothesis.", ref="DESIGN.md §5 C10"),
  "C11": dict(category="exploration", technique="Hypothesis-generated collections with special-character qualifiers: exported text re-read by an independent GFF3 reader (percent-decoding) and by BioCantor's own parsers, then re-exported (round trip / fixpoint)",
    text="Syntax leg: header, 9 columns, 1-based inclusive coordinates equal to the source blocks (chromosome or chunk-relative), strand symbols, phase only on CDS and equal to the frame-derived phase, unique IDs, Parent defined on an earlier line and of the right type, rows ordered by start, reserved keys never emitted from qualifiers, every key/value decoding back to the source text, FASTA section equal to the sequence. Re-parse leg: exons, CDS blocks, frames, strand, ids, symbols, locus tag, biotypes, protein id, product, qualifiers per gene; re-export equals the file up to digest-valued IDs and is a fixpoint. Attribute leg: 2500+ escaping cases.",
    note="Re-parse excludes comma/double quote (gffutils limits). Known finding F24 (duplicate CDS row IDs for isoforms sharing a CDS; pinned by repository GFF3 fixtures).", ref="DESIGN.md §5 C11"),
@@ -63,7 +66,7 @@ CHECKS = {
    text="Span, is_coding, feature types, merged transcript/CDS/feature position sets, primary selection (single flag, several flags refused, else longest CDS then longest spliced length then list position), primary sequence/CDS/protein accessors against the chosen child's values, and start-ordered stable iteration of annotation collections.",
    note="Merged blocks are required to be sorted, disjoint and to cover exactly the union; merging of adjacent blocks is not demanded.", ref="DESIGN.md §5 C20"),
 }
-PENDING_REASON = "check not built yet in this round (planned in DESIGN.md §5); not claimed"
+PENDING_REASON = "not claimed"
 
 def main():
     checks = []
